@@ -187,6 +187,34 @@ template <typename FSM> void Explorer<FSM>::liveChecks(Runner& r, Exec& x) {
 				break;
 			}
 		}
+		// a single approved request: every state it activated reads exactly that transition (and so its payload) afterwards
+		{
+			int nreq = 0, rq = -1; bool cancelled = false, initialStep = x.step.op.type == OP_CONSTRUCT || x.step.op.type == OP_ENTER || x.step.op.type == OP_RESET;
+			for (size_t i = x.stepBegin; i < x.stepEnd; ++i) {
+				const TraceEv& e = x.trace[i];
+				if (e.meth == E_REQUEST) { ++nreq; rq = (int) i; }
+				if (e.meth == E_CANCEL || e.meth == E_SUCCEED || e.meth == E_FAIL || e.meth == M_PLAN_SUCCEEDED || e.meth == M_PLAN_FAILED || e.meth == E_PLAN_APPEND) cancelled = true;
+			}
+			if (nreq == 1 && !cancelled && !initialStep && pt.count() == 1 && x.activatedBefore) {
+				const TraceEv& q = x.trace[rq];
+				const int k = q.a;
+				bool viaReport = k == T_UTILIZE || k == T_RANDOMIZE || k == T_SCHEDULE;
+				if ((int) pt[0].destination == q.b && Runner::kindOf(pt[0].type) == k && !viaReport)
+					for (size_t i = x.stepBegin; i < x.stepEnd; ++i) {
+						const TraceEv& e = x.trace[i];
+						if (e.meth != M_ENTER || e.layer != 0 || (x.before.active.size() && x.before.active[e.state])) continue;
+						bool report = false;   // known finding (C09): states chosen through a utility / random report carry no request index
+						if (k == T_CHANGE) for (int t = E::D(e.state).parent; t >= 0; t = E::D(t).parent) if (E::D(t).kind == K_UTILITARIAN || E::D(t).kind == K_RANDOM) report = true;
+						if (report) continue;
+						++counters["c14_entered_state_views"];
+						if (r.fsm->lastTransitionTo((hfsm2::StateID) e.state) != &pt[0]) {
+							violation("C14", "payload/entered-state-cannot-read-it", "S" + str(e.state) + " was activated by the single request " + std::string(KIND_NAMES[k]) + "(" + str(q.b) + ")" + (q.c >= 0 ? " carrying payload tag " + str(q.c) : std::string("")) +
+									  ", yet lastTransitionTo(S" + str(e.state) + ") does not return that transition", x);
+							break;
+						}
+					}
+			}
+		}
 		++compared;
 	}
 #endif
